@@ -3,7 +3,7 @@ import csv, itertools, json, math, os, subprocess, time
 from concurrent.futures import ThreadPoolExecutor
 import common, extract, mpirun
 
-LEAN_MODULE = ["ESRVerif.Props.C05", "ESRVerif.Props.C05b"]
+LEAN_MODULE = ["ESRVerif.Props.C05", "ESRVerif.Props.C05b", "ESRVerif.Props.C05c"]
 LEVEL = "proof"
 LEVEL_TEXT = ("Lean theorems over a statement-by-statement model of one row of match.main and of the list-level part of "
               "simplifier.convert_params: order of composition of the recorded substitutions, triangular flatten/unflatten of the Hessian, "
@@ -18,15 +18,32 @@ LEVEL_TEXT = ("Lean theorems over a statement-by-statement model of one row of m
               "sign flip, reciprocal, rescaling, real power, exp, log|.| with explicit derivatives (fisher_one_param, fisher_sign_flip, ...).  "
               "Proof level for this decision logic and this calculus; sympy subs/jacobian/lambdify and np.linalg.inv are inputs of the model "
               "and are checked on every run against an independent chain-rule oracle on synthetic libraries run through the real match.main; "
-              "the oracle's J^-T F J^-1 is itself sampled against fisher_matrix_of_variant by finite differences of the variant's likelihood.")
+              "the oracle's J^-T F J^-1 is itself sampled against fisher_matrix_of_variant by finite differences of the variant's likelihood.  "
+              "Props/C05c: row independence.  The stage is modelled twice, as a map of matchOne over the rows (matchFile) and as the loop that threads the "
+              "tables negloglike/params_meas/all_fish through the iterations (matchLoop); an iteration can change the tables exactly when an array it writes "
+              "in place is not a fresh row-local array, and that alias fact is regenerated from the source (Generated/Match.lean snapPaths: one entry per "
+              "in-place write and origin reaching it, forward may-analysis of the loop body, harness/extractors/_norm_c05.py).  rows_do_not_share_state is a "
+              "decide over the regenerated table; matchStage_eq_matchFile needs it; matchFile_row_local / _perm / _reindex / _reverse / _remove / _add and "
+              "matchStage_ranks (with C14's getFunctions_tiles) are the consequences, each checked on the real match.main by metamorphic runs of libraries "
+              "in which every unique function has 16-32 variants (every ordered pair of chain kinds, every below/at/above-threshold pattern for k<=2).")
 TECHNIQUE = ("Lean 4 proof on a hand model of match.main's row logic + regenerated guard/constants + model-code correspondence on synthetic "
              "libraries (real match.main, 1-3 ranks) + independent numpy chain-rule oracle, "
-             "whose transformed Fisher matrix is sampled against theorem ESR.C05.fisher_matrix_of_variant by central finite differences")
+             "whose transformed Fisher matrix is sampled against theorem ESR.C05.fisher_matrix_of_variant by central finite differences "
+             "+ regenerated alias (freshness) table of every in-place write of the loop, decided in Lean "
+             "+ metamorphic runs of the real match.main (function order reversed / shuffled, one variant per unique function removed, 1-3 ranks) on "
+             "libraries with many variants per unique function, outputs compared bit for bit per function")
 RULE = ("one evaluation = one row of a synthetic library pushed through the real match.main; distinct = (number of parameters, chain of "
-        "templates, sign/threshold class of theta); non-trivial = non-empty chain or a snapped parameter")
+        "templates, sign/threshold class of theta); non-trivial = non-empty chain or a snapped parameter.  Family libraries: for every k<=2 and every "
+        "below/at/above pattern per parameter (k=3: 6 patterns, 27 at thorough depth) one unique function whose variants are listed as K + reversed(K), "
+        "K a seeded permutation of (same parameterisation; sign flip, reciprocal, cube root of each parameter; rescale; swap/cycle; rename; nan), so every "
+        "ordered pair of kinds occurs for the same unique function on the same rank; 6 schedules per library")
 EXPLANATION = LEVEL_TEXT
 TRUSTED = ["hand model ESRVerif/Model/Match.lean of match.py:64-229 and of the list-level part of simplifier.convert_params (tied by correspondence on every row)",
-           "harness/extractors/match.py (guard AST, constants)",
+           "harness/extractors/match.py (guard AST, constants, statement order incl. the `if chain empty: ... else: try: convert_params` split)",
+           "harness/extractors/_norm_c05.py: the freshness rules (which numpy calls return new arrays, which pass their argument through, basic slice = view, "
+           "list/boolean-mask index = copy; results of simplifier.convert_params / count_params are new objects; callees do not write into their array arguments - "
+           "simplifier.convert_params is hash-tracked in MODELLED) - fail closed: anything not positively fresh is reported as not fresh",
+           "row independence on the real code is checked on the schedules run (6 per library), not for every permutation; the Lean theorems are about the model",
            "sympy subs/jacobian/lambdify and np.linalg.inv inside simplifier.convert_params: inputs of the model, compared with the independent chain-rule oracle "
            "(closed-form derivative per template, composed by the chain rule); that the oracle's F' = J^-T F J^-1 is the Hessian of the variant's negative "
            "log-likelihood is theorem ESR.C05.fisher_matrix_of_variant (diagonal: fisher_diag_monomial), no longer an assumption; the oracle samples it: central "
@@ -46,7 +63,9 @@ ASSUMPTIONS = ["try_integration=False (the default) in match.main",
                "variant evaluated at g(theta) is the unique function evaluated at theta for theta near theta^"]
 # tables whose committed version may stand in as a hand-written model when the translator cannot read the source;
 # value = the correspondence that then ties it to the code (common.prove / common.decide)
-FALLBACK = {'Match': 'real match.main on synthetic libraries (all chains) vs the Lean matchRow model, bit-exact decisions'}
+FALLBACK = {'Match': 'real match.main on synthetic libraries (all chains) vs the Lean matchRow model, bit-exact decisions, and row independence of the real '
+                     'match.main (the alias fact of the table) checked directly: family libraries with every ordered pair of chain kinds per unique function, '
+                     're-run reversed / shuffled / with variants removed / on 2 and 3 ranks, per-function output bit-identical'}
 MODELLED = ["match.py:main", "simplifier.py:convert_params", "simplifier.py:load_subs"]
 LEANCHECKER = True
 
@@ -317,7 +336,7 @@ def write_chunk(copy, dd, run, comp, rows, data, dataname):
     return os.path.join(out, "codelen_matches_comp%d.dat" % comp)
 
 
-def run_group(ctx, copy, dd, dataname, run, comps, P, probe_json):
+def run_group(ctx, copy, dd, dataname, run, comps, P, probe_json, probe=True):
     """real match.main under P ranks, then the probe (1 rank), for the chunks `comps` of run `run`"""
     env = ctx.env()
     env["PYTHONPATH"] = os.pathsep.join([common.STANDIN, copy, common.HARNESS])
@@ -329,6 +348,8 @@ def run_group(ctx, copy, dd, dataname, run, comps, P, probe_json):
     if res.get("tmp") and res["tmp"] != sd:
         import shutil
         shutil.rmtree(res["tmp"], ignore_errors=True)          # the hub's socket directory
+    if not probe:
+        return res, None
     pr = subprocess.run([common.PY, os.path.join(common.HARNESS, "workers", "match_probe.py")] + args + [probe_json], env=dict(env, ESRV_MPI_SIZE="1", ESRV_MPI_RANK="0"),
                         cwd=copy, capture_output=True, text=True)
     return res, pr
@@ -827,22 +848,23 @@ def guard_is_nan_test(ctx):
                        "guard `%s` differs from the nan test on chain shapes %s" % (_guard_src(), bad))
 
 
-def judge(ctx, results, guard_ok):
+def judge(ctx, results, guard_ok, replay_of=None, keyfix=""):
     """property oracle on every real output row"""
+    _rp = (lambda r, dn: replay_of(r, dn)) if replay_of else _replay_of
     classes, excl_f6, nfail = {}, 0, 0
     f1_rows = []
     raised = {}
     for (r, out, pb, dn, P, i) in results:
         if r["k"] == 0:
             if not (out[1] == 0 and all(v == 0 for v in out[3:])):
-                ctx.fail("match.py:noparams", "parameter-free function got code length %r / parameters %r" % (out[1], out[3:]), _replay_of(r, dn))
+                ctx.fail("match.py:noparams", "parameter-free function got code length %r / parameters %r" % (out[1], out[3:]), _rp(r, dn))
             ctx.case(("noparams", dn), nontrivial=False)
             continue
         bad, info = oracle(r, out, dataset(dn))
         classes[info["cls"]] = classes.get(info["cls"], 0) + 1
         if info.get("f6"):
             excl_f6 += 1
-        ctx.case((r["k"], tuple(r["chain"]), r["tag"]), nontrivial=bool(r["chain"]) or info.get("snapped", 0) > 0)
+        ctx.case((r["k"], tuple(r["chain"]), r["tag"], keyfix), nontrivial=bool(r["chain"]) or info.get("snapped", 0) > 0)
         for kind, msg in bad:
             nfail += 1
             if kind == "finite" and out[1] == float("inf") and info.get("observed_zero_params") and r["chain"]:
@@ -856,15 +878,276 @@ def judge(ctx, results, guard_ok):
                     kkey = "simplifier.py:convert_params:raises:%s:%s" % (exc.split(":")[0], m.group(1) if m else "-".join(sorted(set(templates(r["k"])[c].cls for c in r["chain"]))))
                     raised.setdefault(kkey, []).append((r, out, dn, msg, exc))
                     continue
-            ctx.fail("match.py:%s:%s" % (kind, _rowkey(r)), "%s [variant %s of %s, theta=%s, P=%d] -> row %s" % (msg, r["variant"], r["unique"], r["theta"], P, out),
-                     _replay_of(r, dn))
+            ctx.fail("match.py:%s:%s%s" % (kind, _rowkey(r), keyfix), "%s [variant %s of %s, theta=%s, P=%d] -> row %s" % (msg, r["variant"], r["unique"], r["theta"], P, out),
+                     _rp(r, dn))
     for kkey, lst in sorted(raised.items()):
         lst.sort(key=lambda q: (q[0]["k"], len(q[0]["chain"]), q[0]["tag"]))
         r, out, dn, msg, exc = lst[0]
-        ctx.fail(kkey, "%d rows: simplifier.convert_params raises (%s) for a recoverable chain that is regular at theta, so match.py:99-102 gives code length inf; "
+        ctx.fail(kkey + keyfix, "%d rows: simplifier.convert_params raises (%s) for a recoverable chain that is regular at theta, so match.py:99-102 gives code length inf; "
                  "smallest: variant %r of %r, chain [%s], theta=%s -> row %s" % (len(lst), exc, r["variant"], r["unique"], "; ".join(templates(r["k"])[c].s for c in r["chain"]), r["theta"], out),
-                 _replay_of(r, dn))
+                 _rp(r, dn))
     return classes, excl_f6, nfail, f1_rows
+
+
+# =====================================================================================================================
+# row independence (Props/C05c): libraries where every unique function has SEVERAL variants, and metamorphic re-runs
+# =====================================================================================================================
+
+def family_kinds(k):
+    """(kind, template) of the variants given to every unique function with k parameters.  Kinds acting on one parameter are
+    listed for every parameter, so that 'the snapped parameter is the one a later chain is singular on' is enumerated."""
+    out = [("empty", None)]
+    for j in range(k):
+        out += [("sign%d" % j, "neg%d" % j), ("reciprocal%d" % j, "inv%d" % j), ("root%d" % j, "oddroot%d" % j)]
+    if k == 1:
+        out += [("evenroot0", "evenroot0"), ("rescale0", "scale0_2"), ("rename", "ren1to0")]
+    elif k == 2:
+        out += [("rescale0", "scale0_2"), ("rescale1", "scale1_2"), ("swap", "swap01"), ("rename", "ren1to0")]
+    else:
+        out += [("rescale1", "scale1_3"), ("swap", "swap02"), ("cycle", "cyc012")]
+    out.append(("nan", "nan"))
+    return out
+
+
+SNAP_CLASSES = ("below", "near", "above")
+
+
+def gen_families(ctx, deep):
+    """-> list of libraries; library = dict(name, dataname, funcs=[row + u + fid + kind + pattern]).  For every k and every pattern
+    of (below / at / above the snap threshold) per parameter one unique function whose variants are listed in the order K + reversed(K),
+    K a PRNG permutation of family_kinds(k): every ORDERED pair of kinds (A listed before B, A = B included) occurs for that unique
+    function, and in the base schedule (1 rank) on the same rank."""
+    import numpy as np
+    rng = ctx.rng
+    dmain = dataset("main")
+    T = {k: templates(k) for k in (1, 2, 3)}
+    Hm = {k: hessian(k, dmain[0], dmain[2]) for k in (1, 2, 3)}
+    libs = []
+    for name, ks in (("fam12", (1, 2)), ("fam3", (3,))):
+        funcs, u = [], 0
+        for k in ks:
+            pats = list(itertools.product(SNAP_CLASSES, repeat=k))
+            if k == 3 and not deep:
+                must = [("below", "below", "below"), ("below", "above", "near"), ("above", "below", "above"), ("above", "above", "above")]
+                rest = [q for q in pats if q not in must]
+                rng.shuffle(rest)
+                pats = must + rest[:2]
+            for pat in pats:
+                sg = [rng.choice([1.0, -1.0]) for _ in range(k)]
+                if pat.count("below") and rng.random() < 0.7:
+                    sg[pat.index("below")] = 1.0                 # a positive below-threshold parameter: odd root regular there
+                tg = [(1.0 + rng.choice([1e-6, -1e-6])) if c == "near" else MAGS[c] for c in pat]
+                th = solve_theta(T[k], k, (), Hm[k], sg, tg)
+                K = family_kinds(k)
+                rng.shuffle(K)
+                for kind, tpl in K + K[::-1]:
+                    r = make_row(T[k], k, (tpl,) if tpl else (), th, dmain,
+                                 tag="fam:%s%s" % ("".join(c[0] for c in pat), "".join("+" if v > 0 else "-" for v in sg)))
+                    r["u"], r["kind"], r["pattern"] = u, kind, "".join(c[0] for c in pat)
+                    funcs.append(r)
+                u += 1
+        for fid, r in enumerate(funcs):
+            r["fid"] = fid
+        libs.append(dict(name=name, dataname="main", funcs=funcs))
+    return libs
+
+
+def schedules(ctx, lib):
+    """base + metamorphic re-runs of one library: (label, order of fids, ranks)"""
+    rng = ctx.rng
+    n = len(lib["funcs"])
+    ident = list(range(n))
+    sh = list(ident); rng.shuffle(sh)
+    by_u = {}
+    for r in lib["funcs"]:
+        by_u.setdefault(r["u"], []).append(r["fid"])
+    drop = set(rng.choice(v) for v in by_u.values())            # one variant of every unique function removed
+    return [("base", ident, 1), ("reversed", ident[::-1], 1), ("shuffled", sh, 1), ("removed", [f for f in ident if f not in drop], 1),
+            ("ranks2", ident, 2), ("ranks3", ident, 3)]
+
+
+def write_library(copy, dd, run, comp, funcs, data, dataname, all_funcs=None):
+    """like write_chunk, but several functions share a unique function: matches_<n>.txt points into the unique tables, which are
+    written once from `all_funcs` (so they do not depend on which functions are listed or in which order)"""
+    import numpy as np
+    T = {k: templates(k) for k in (1, 2, 3)}
+    lib = os.path.join(copy, "esr", "function_library", FN_SET, "compl_%d" % comp)
+    out = os.path.join(dd, "fitting", "output", "output_" + run)
+    for d in (lib, out, os.path.join(dd, "fitting", "output", "partial_" + run)):
+        os.makedirs(d, exist_ok=True)
+    dpath = os.path.join(dd, dataname)
+    if not os.path.exists(dpath):
+        np.savetxt(dpath, np.c_[data[0], data[1], data[2]])
+    uq = {}
+    for r in (all_funcs if all_funcs is not None else funcs):
+        uq.setdefault(r["u"], r)
+    us = sorted(uq)
+    pos = {u: i for i, u in enumerate(us)}
+    with open(os.path.join(lib, "unique_equations_%d.txt" % comp), "w") as fh:
+        fh.writelines(uq[u_]["unique"] + "\n" for u_ in us)
+        fh.write("x\n")
+    with open(os.path.join(lib, "all_equations_%d.txt" % comp), "w") as fh:
+        fh.writelines(r["variant"] + "\n" for r in funcs)
+        fh.write("x\n")
+    np.savetxt(os.path.join(lib, "matches_%d.txt" % comp), np.array([pos[r["u"]] for r in funcs] + [len(us)], dtype=float))
+    with open(os.path.join(lib, "inv_subs_%d.txt" % comp), "w") as fh:
+        w = csv.writer(fh, delimiter=";")
+        for r in funcs:
+            w.writerow([T[r["k"]][c].s for c in r["chain"]])
+        w.writerow([])
+    nl = np.zeros((len(us) + 1, 1 + MAXP))
+    dv = np.full((len(us) + 1, MAXP * (MAXP + 1) // 2), np.nan)
+    for i, u_ in enumerate(us):
+        r = uq[u_]
+        nl[i, 0] = r["nllU"]
+        nl[i, 1:1 + r["k"]] = r["theta"]
+        dv[i, :] = r["flat"]
+    nl[-1, 0] = _r7(gauss_nll("x", data, []))
+    np.savetxt(os.path.join(out, "negloglike_comp%d.dat" % comp), nl, fmt="%.7e")
+    np.savetxt(os.path.join(out, "derivs_comp%d.dat" % comp), dv, fmt="%.7e")
+    return os.path.join(out, "codelen_matches_comp%d.dat" % comp)
+
+
+def run_jobs(ctx, jobs, label):
+    """jobs: dict(name, dataname, funcs (in listing order), all_funcs, P, probe) -> adds job['out'] (rows as listed) and job['pb']"""
+    import numpy as np
+    copy = common.fresh_copy(ctx, "c05_%s" % label)
+    for comp, j in enumerate(jobs, start=1):
+        j["dd"] = os.path.join(ctx.tmp, "c05_dd_%s_%d" % (label, comp))
+        os.makedirs(os.path.join(j["dd"], "fitting"), exist_ok=True)
+        j["comp"], j["run"] = comp, "j%d" % comp
+        j["outf"] = write_library(copy, j["dd"], j["run"], comp, j["funcs"], dataset(j["dataname"]), "data_%s.txt" % j["dataname"], j.get("all_funcs"))
+
+    def work(j):
+        pj = os.path.join(j["dd"], "probe.json")
+        return j, pj, run_group(ctx, copy, j["dd"], "data_%s.txt" % j["dataname"], j["run"], [j["comp"]], j["P"], pj, probe=j.get("probe", False))
+    with ThreadPoolExecutor(max_workers=max(1, min(len(jobs), 12))) as ex:
+        done = list(ex.map(work, jobs))
+    for j, pj, (res, pr) in done:
+        if not res["ok"]:
+            tail = ""
+            try:
+                tail = open(res["stdout"][0]).read()[-800:]
+            except Exception:
+                pass
+            raise RuntimeError("real match.main failed on library %s (P=%d): %s %s\n%s" % (j["name"], j["P"], res.get("error"), res.get("exit_codes"), tail))
+        out = np.atleast_2d(np.loadtxt(j["outf"]))
+        if out.shape[0] != len(j["funcs"]) + 1:
+            raise RuntimeError("codelen_matches_comp%d.dat has %d rows for %d functions (P=%d)" % (j["comp"], out.shape[0], len(j["funcs"]) + 1, j["P"]))
+        j["out"] = [[float(v) for v in row] for row in out]
+        j["pb"] = None
+        if pr is not None:
+            if pr.returncode != 0:
+                raise RuntimeError("probe failed: %s" % pr.stderr[-1500:])
+            j["pb"] = json.load(open(pj))[str(j["comp"])]
+    return jobs
+
+
+ROW_KEYS = ("k", "chain", "theta", "F", "flat", "variant", "unique", "nllU", "tag", "custom_F", "artificial", "u")
+
+
+def _slim(r):
+    return {k: r[k] for k in ROW_KEYS}
+
+
+def _same_row(a, b):
+    """bit patterns of what was written ('%.7e' text read back), column 2 (index of the unique function) included"""
+    return len(a) == len(b) and all(_b(x) == _b(y) or (x != x and y != y) for x, y in zip(a, b))
+
+
+def family_check(ctx, deep, guard_ok):
+    """(a) the family libraries through the real match.main, (b) metamorphic re-runs compared function by function with the base run,
+    (c) returns the base rows for the model-vs-code correspondence.  -> (results for correspond, stats, f1_rows)"""
+    libs = gen_families(ctx, deep)
+    jobs = []
+    for lib in libs:
+        byfid = {r["fid"]: r for r in lib["funcs"]}
+        for label, order, P in schedules(ctx, lib):
+            jobs.append(dict(name="%s/%s" % (lib["name"], label), lib=lib["name"], label=label, dataname=lib["dataname"], order=order, P=P,
+                             funcs=[byfid[f] for f in order], all_funcs=lib["funcs"], probe=(label == "base")))
+    run_jobs(ctx, jobs, "fam")
+    stats = dict(libraries={l["name"]: len(l["funcs"]) for l in libs}, schedules=sorted(set(j["label"] for j in jobs)), rows_run=0, compared=0,
+                 differing=0, ordered_pairs_same_unique_same_rank=0, target_sequences=0, unique_functions=0)
+    results, judged, f1_rows = [], [], []
+    for lib in libs:
+        lj = [j for j in jobs if j["lib"] == lib["name"]]
+        base = [j for j in lj if j["label"] == "base"][0]
+        base_out = {fid: base["out"][i] for i, fid in enumerate(base["order"])}
+        # coverage actually reached in the base schedule (measured on the real outputs, not assumed)
+        fam = {}
+        for r in lib["funcs"]:
+            fam.setdefault(r["u"], []).append(r)
+        stats["unique_functions"] += len(fam)
+        for u_, rs in fam.items():
+            kinds = [r["kind"] for r in rs]
+            stats["ordered_pairs_same_unique_same_rank"] += len(set((a, b) for i, a in enumerate(kinds) for b in kinds[i + 1:]))
+            # the sequence C05d needs: a same-parameterisation row that snapped parameter j, later a chain singular at 0 on j
+            for i, a in enumerate(rs):
+                if a["kind"] != "empty":
+                    continue
+                oa = base_out[a["fid"]]
+                snapped = [j for j in range(a["k"]) if oa[3 + j] == 0 and a["theta"][j] != 0 and math.isfinite(oa[1])]
+                for b in rs[i + 1:]:
+                    if any(b["kind"] in ("reciprocal%d" % j, "root%d" % j, "evenroot%d" % j) for j in snapped):
+                        stats["target_sequences"] += 1
+        for j in lj:
+            stats["rows_run"] += len(j["funcs"])
+            for i, fid in enumerate(j["order"]):
+                r = lib["funcs"][fid]
+                out = j["out"][i]
+                pb = j["pb"][i] if j["pb"] is not None else {}
+                row = (dict(r, _job=j["name"]), out, pb, j["dataname"], j["P"], i)
+                judged.append(row)
+                if j is base:
+                    results.append(row)
+                    continue
+                stats["compared"] += 1
+                if _same_row(out, base_out[fid]):
+                    continue
+                stats["differing"] += 1
+                bad, info = oracle(r, out, dataset(j["dataname"]))
+                bad0, info0 = oracle(r, base_out[fid], dataset(j["dataname"]))
+                what = ("row independence: function %r (variant of %r, chain [%s], theta=%s) gets the row %s in schedule %s (P=%d, listed at position %d) "
+                        "but %s in schedule base (P=1, position %d) of the same library %s; oracle on the first: %s, on the second: %s"
+                        % (r["variant"], r["unique"], "; ".join(templates(r["k"])[c].s for c in r["chain"]), r["theta"], out, j["label"], j["P"], i,
+                           base_out[fid], fid, lib["name"], [m for _, m in bad] or info["cls"], [m for _, m in bad0] or info0["cls"]))
+                rp = dict(kind="family", data=j["dataname"], fid=fid, all_funcs=[_slim(q) for q in lib["funcs"]],
+                          a=dict(label=j["label"], order=j["order"], P=j["P"]), b=dict(label="base", order=base["order"], P=1))
+                P_same_family(rp, lib)
+                if info["cls"] in ("regular", "unrecoverable") or info0["cls"] in ("regular", "unrecoverable"):
+                    ctx.fail("match.py:row-independence:%s" % _rowkey(r), what, rp)
+                else:
+                    ctx.disagree("corr:row-independence", what)
+
+    def replay_of(r, dn):
+        j = [q for q in jobs if q["name"] == r["_job"]][0]
+        lib = [l for l in libs if l["name"] == j["lib"]][0]
+        fam_order = [f for f in j["order"] if lib["funcs"][f]["u"] == r["u"]] if j["P"] == 1 else list(j["order"])
+        return dict(kind="library", data=dn, fid=r["fid"], all_funcs=[_slim(q) for q in lib["funcs"]], order=fam_order, P=j["P"], label=j["label"])
+    classes, excl_f6, nfail, f1 = judge(ctx, judged, guard_ok, replay_of=replay_of, keyfix=":in-library")
+    stats["oracle_classes"] = classes
+    stats["oracle_failures"] = nfail
+    return results, stats, f1
+
+
+def P_same_family(rp, lib):
+    """shrink a two-schedule replay to the functions of the failing function's unique function when both schedules run on one rank
+    (rows of other unique functions cannot matter then: they read other rows of the tables)"""
+    if rp["a"]["P"] != 1 or rp["b"]["P"] != 1:
+        return False
+    u_ = lib["funcs"][rp["fid"]]["u"]
+    for s in ("a", "b"):
+        rp[s]["order"] = [f for f in rp[s]["order"] if lib["funcs"][f]["u"] == u_]
+    return True
+
+
+def _run_listing(ctx, all_funcs, order, P, dataname, label):
+    byfid = {i: dict(r, fid=i) for i, r in enumerate(all_funcs)}
+    for r in byfid.values():
+        r["F"] = [[float(v) for v in row] for row in r["F"]]
+    j = dict(name=label, dataname=dataname, P=P, funcs=[byfid[f] for f in order], all_funcs=[byfid[i] for i in sorted(byfid)], probe=False)
+    run_jobs(ctx, [j], "replay_" + label)
+    return {fid: j["out"][i] for i, fid in enumerate(order)}, byfid
 
 
 def run(ctx):
@@ -877,14 +1160,20 @@ def run(ctx):
     ctx.extra["t_gen_s"] = round(time.time() - t0, 1)
     results = execute(ctx, rows)
     ctx.extra["t_exec_s"] = round(time.time() - t0, 1)
-    nops, nbad, branches = correspond(ctx, results)
-    nf, bf = flatten_tie(ctx)
-    nt, bt = template_format_tie(ctx)
-    ctx.extra["theorem_samples"] = hessian_theorem_tie(ctx, deep)
     gok, gdetail = guard_is_nan_test(ctx)
     if not gok:
         ctx.disagree("model:guard-is-nan-test", gdetail)
+    n_single = len(results)
+    fam_results, fam_stats, fam_f1 = family_check(ctx, deep, gok)
+    ctx.extra["t_family_s"] = round(time.time() - t0, 1)
+    nops, nbad, branches = correspond(ctx, results + fam_results)
+    results = results[:n_single]
+    nf, bf = flatten_tie(ctx)
+    nt, bt = template_format_tie(ctx)
+    ctx.extra["theorem_samples"] = hessian_theorem_tie(ctx, deep)
     classes, excl_f6, nfail, f1_rows = judge(ctx, results, gok)
+    ctx.extra["row_independence"] = fam_stats
+    f1_rows += fam_f1
     if f1_rows:
         # minimal instance first: shortest chain, fewest parameters
         f1_rows.sort(key=lambda q: (q[0]["k"], len(q[0]["chain"]), [ALPHA[q[0]["k"]].index(c) if c in ALPHA[q[0]["k"]] else 99 for c in q[0]["chain"]], q[0]["tag"] != "a+"))
@@ -892,7 +1181,8 @@ def run(ctx):
         ctx.fail(F1_KEY, "%d rows with a recoverable, regular, non-empty chain and a finite unique function get code length inf and zero parameters; smallest: "
                  "variant %r of %r, chain [%s], theta=%s -> row %s (identity-chain rows are finite). %s"
                  % (len(f1_rows), r["variant"], r["unique"], "; ".join(templates(r["k"])[c].s for c in r["chain"]), r["theta"], out, msg), _replay_of(r, dn))
-    obligations = ["corr:matchRow", "corr:unflatten", "corr:compose-order", "corr:nan-identity", "corr:flatten", "corr:template-format", "model:guard-is-nan-test", "tie:hessian-transform"]
+    obligations = ["corr:matchRow", "corr:unflatten", "corr:compose-order", "corr:nan-identity", "corr:flatten", "corr:template-format", "model:guard-is-nan-test", "tie:hessian-transform",
+                   "corr:row-independence"]
     dis = set(d["name"] for d in ctx.disagreements)
     ctx.extra["corr_obligations"] = len(obligations)
     ctx.extra["corr_discharged"] = sum(1 for o in obligations if o not in dis)
@@ -924,6 +1214,33 @@ def _guard_src():
 
 def replay(ctx, data):
     rp = data["replay"]
+    if rp.get("kind") == "family":
+        # the same function listed in two schedules of the same library: the two rows must be the same
+        outs = {}
+        for s_ in ("a", "b"):
+            outs[s_], byfid = _run_listing(ctx, rp["all_funcs"], rp[s_]["order"], rp[s_]["P"], rp["data"], s_)
+        r = byfid[rp["fid"]]
+        for s_ in ("a", "b"):
+            print("schedule %s (%s, %d rank(s)): functions listed as" % (s_, rp[s_]["label"], rp[s_]["P"]))
+            for f in rp[s_]["order"]:
+                q = byfid[f]
+                print("   %s fid=%d unique#%d %-28s chain [%s] -> %s" % ("*" if f == rp["fid"] else " ", f, q["u"], q["variant"],
+                                                                      "; ".join(templates(q["k"])[c].s for c in q["chain"]), outs[s_][f]))
+        print("unique function %r, theta=%s" % (r["unique"], r["theta"]))
+        same = _same_row(outs["a"][rp["fid"]], outs["b"][rp["fid"]])
+        print("function fid=%d: rows %s" % (rp["fid"], "identical" if same else "DIFFER"))
+        return same
+    if rp.get("kind") == "library":
+        outs, byfid = _run_listing(ctx, rp["all_funcs"], rp["order"], rp["P"], rp["data"], "lib")
+        r = byfid[rp["fid"]]
+        for f in rp["order"]:
+            q = byfid[f]
+            print("   %s fid=%d unique#%d %-28s chain [%s] -> %s" % ("*" if f == rp["fid"] else " ", f, q["u"], q["variant"],
+                                                                  "; ".join(templates(q["k"])[c].s for c in q["chain"]), outs[f]))
+        bad, info = oracle(r, outs[rp["fid"]], dataset(rp["data"]))
+        print("unique function %r, theta=%s, %d rank(s), schedule %s" % (r["unique"], r["theta"], rp["P"], rp.get("label")))
+        print("oracle on fid=%d:" % rp["fid"], info, bad)
+        return not bad
     r = rp["row"]
     r = dict(r)
     r["F"] = [[float(v) for v in row] for row in r["F"]]
